@@ -1,12 +1,18 @@
 //! scenario families, one module per property
 use crate::explore::Scenario;
 
+mod c03;
+mod c04;
+mod c19;
 mod smoke;
 
 pub fn build(prop: &str, tier: &str) -> Vec<Scenario> {
     let quick = tier != "thorough";
     match prop {
         "SMOKE" => smoke::build(quick),
+        "C03" => c03::build(quick),
+        "C04" => c04::build(quick),
+        "C19" => c19::build(quick),
         _ => vec![],
     }
 }
